@@ -122,6 +122,16 @@ class Vec:
         i = z3.Int("__li")
         body = self.f(i)
         body = lift(body, self.kind)
+        try:
+            sb = z3.simplify(body)
+            if z3.is_select(sb) and z3.eq(sb.arg(1), i) and z3.is_const(sb.arg(0)):
+                # the vector is, pointwise and syntactically, an existing array (e.g. 0*c + y): same array term,
+                # so uninterpreted functions of the whole vector (dot, mv, mtv, norms) agree by congruence
+                self.arr = sb.arg(0)
+                return self.arr
+            body = sb
+        except Exception:  # noqa
+            pass
         self.arr = z3.Lambda([i], body)
         return self.arr
 
